@@ -182,9 +182,14 @@ def stage2(shapes, s1_meta, s1_model, seed, tier='quick'):
             positions = positions[:12] + rng.sample(positions[12:], 12)
         for p in positions:
             vals = set(MUT_VALUES) | {(img[p] + 1) & 255, (img[p] - 1) & 255}
+            # steps of an alignment unit: an offset / length that stays aligned for a narrower type
+            steps = {(img[p] + d) & 255 for d in (2, 4, 8, -2, -4, -8)}
             vals.discard(img[p])
+            steps.discard(img[p])
             if tier == 'quick':
-                vals = rng.sample(sorted(vals), min(4, len(vals)))
+                vals = set(rng.sample(sorted(vals), min(4, len(vals)))) | set(rng.sample(sorted(steps), min(3, len(steps))))
+            else:
+                vals |= steps
             for v in sorted(vals):
                 mut = bytearray(img)
                 mut[p] = v
